@@ -1,6 +1,7 @@
 package main
 
 import (
+	"fmt"
 	"path"
 	"sort"
 	"strings"
@@ -25,6 +26,7 @@ type vfsState struct {
 	crashAfter int // -1: never
 	oplog      []string
 	failNext   map[string]bool
+	access     []vaccess
 }
 
 type vfile struct {
@@ -54,6 +56,27 @@ func (in *Interp) fsStep(what string) {
 	fs.steps++
 	fs.oplog = append(fs.oplog, what)
 }
+
+// fsPath turns a path argument into a concrete name: symbolic bytes are
+// concretised (one alternative per feasible value, decided by the solver).
+func (in *Interp) fsPath(v Value, what string) string {
+	sv := v.(*StrV)
+	if s, ok := sv.Concrete(); ok {
+		return s
+	}
+	if sv.op != nil {
+		in.unsupported("%s: opaque string as a filesystem path", what)
+	}
+	bs := make([]byte, len(sv.b))
+	for i, t := range sv.b {
+		bs[i] = byte(in.concretize(t, what+" byte", 256))
+	}
+	return string(bs)
+}
+
+type vaccess struct{ op, path string }
+
+func (fs *vfsState) note(op, p string) { fs.access = append(fs.access, vaccess{op, p}) }
 
 func cleanPath(p string) string {
 	if !strings.HasPrefix(p, "/") {
@@ -175,7 +198,7 @@ func (in *Interp) parentOK(fs *vfsState, p string) bool {
 
 func (in *Interp) vfsOpen(pathV Value, flag int, perm uint32) Value {
 	fs := in.vfs()
-	ps := in.concreteStr(pathV, "os.Open path")
+	ps := in.fsPath(pathV, "os.Open path")
 	rp, ok := fs.resolve(ps, true)
 	n := fs.nodes[rp]
 	if !ok {
@@ -189,6 +212,7 @@ func (in *Interp) vfsOpen(pathV Value, flag int, perm uint32) Value {
 			return Tuple{(*Value)(nil), in.fsErr("notexist", "open", ps)}
 		}
 		in.fsStep("create " + rp)
+		fs.note("create", rp)
 		n = &vnode{kind: 'f', mode: perm}
 		fs.nodes[rp] = n
 	} else {
@@ -198,10 +222,18 @@ func (in *Interp) vfsOpen(pathV Value, flag int, perm uint32) Value {
 		if n.kind == 'd' && flag&(oWRONLY|oRDWR) != 0 {
 			return Tuple{(*Value)(nil), in.fsErr("isdir", "open", ps)}
 		}
+		if flag&oTRUNC != 0 && n.kind == 'f' {
+			fs.note("write", rp)
+		}
 		if flag&oTRUNC != 0 && n.kind == 'f' && len(n.data) > 0 {
 			in.fsStep("truncate " + rp)
 			n.data = nil
 		}
+	}
+	if flag&(oWRONLY|oRDWR) != 0 {
+		fs.note("openw", rp)
+	} else if n.kind == 'f' {
+		fs.note("read", rp)
 	}
 	return Tuple{in.newFileHandle(rp, n, flag&(oWRONLY|oRDWR) != 0, flag&oAPPEND != 0), Iface{}}
 }
@@ -222,6 +254,7 @@ func (in *Interp) fileWrite(f *vfile, data []Value) {
 		panic(targetPanic{Iface{t: in.runtimeErrType(), v: in.mkStr("verif: simulated crash")}})
 	}
 	in.fsStep("write " + f.path)
+	in.vfs().note("write", f.path)
 	in.writeAt(f, data)
 }
 
@@ -270,7 +303,7 @@ func registerVFS() {
 	})
 	I("os.ReadFile", func(in *Interp, fr *frame, a []Value) Value {
 		fs := in.vfs()
-		ps := in.concreteStr(a[0], "os.ReadFile path")
+		ps := in.fsPath(a[0], "os.ReadFile path")
 		rp, ok := fs.resolve(ps, true)
 		n := fs.nodes[rp]
 		if !ok || n == nil {
@@ -279,6 +312,7 @@ func registerVFS() {
 		if n.kind != 'f' {
 			return Tuple{SliceV{nil: true}, in.fsErr("isdir", "read", ps)}
 		}
+		fs.note("read", rp)
 		return Tuple{in.mkBytes(n.data), Iface{}}
 	})
 	I("os.WriteFile", func(in *Interp, fr *frame, a []Value) Value {
@@ -295,7 +329,7 @@ func registerVFS() {
 	stat := func(final bool) intrinsic {
 		return func(in *Interp, fr *frame, a []Value) Value {
 			fs := in.vfs()
-			ps := in.concreteStr(a[0], "os.Stat path")
+			ps := in.fsPath(a[0], "os.Stat path")
 			rp, ok := fs.resolve(ps, final)
 			n := fs.nodes[rp]
 			if !ok || n == nil {
@@ -308,7 +342,7 @@ func registerVFS() {
 	I("os.Lstat", stat(false))
 	I("os.MkdirAll", func(in *Interp, fr *frame, a []Value) Value {
 		fs := in.vfs()
-		ps := in.concreteStr(a[0], "os.MkdirAll path")
+		ps := in.fsPath(a[0], "os.MkdirAll path")
 		perm := uint32(in.concInt(a[1].(*Term), "MkdirAll perm"))
 		p := cleanPath(ps)
 		parts := strings.Split(strings.TrimPrefix(p, "/"), "/")
@@ -327,7 +361,15 @@ func registerVFS() {
 				cur = rp
 				continue
 			}
+			if lp, lok := fs.resolve(cur, false); lok && fs.nodes[lp] != nil {
+				// dangling symbolic link: mkdir says EEXIST, Lstat says not a directory
+				return in.fsErr("exist", "mkdir", ps)
+			}
+			if !ok {
+				return in.fsErr("notexist", "mkdir", ps)
+			}
 			in.fsStep("mkdir " + rp)
+			fs.note("mkdir", rp)
 			fs.nodes[rp] = &vnode{kind: 'd', mode: perm}
 			cur = rp
 		}
@@ -335,7 +377,7 @@ func registerVFS() {
 	})
 	I("os.Mkdir", func(in *Interp, fr *frame, a []Value) Value {
 		fs := in.vfs()
-		ps := in.concreteStr(a[0], "os.Mkdir path")
+		ps := in.fsPath(a[0], "os.Mkdir path")
 		perm := uint32(in.concInt(a[1].(*Term), "Mkdir perm"))
 		rp, ok := fs.resolve(ps, true)
 		if !ok || !in.parentOK(fs, rp) {
@@ -345,13 +387,14 @@ func registerVFS() {
 			return in.fsErr("exist", "mkdir", ps)
 		}
 		in.fsStep("mkdir " + rp)
+		fs.note("mkdir", rp)
 		fs.nodes[rp] = &vnode{kind: 'd', mode: perm}
 		return Iface{}
 	})
 	I("os.Rename", func(in *Interp, fr *frame, a []Value) Value {
 		fs := in.vfs()
-		from := in.concreteStr(a[0], "os.Rename from")
-		to := in.concreteStr(a[1], "os.Rename to")
+		from := in.fsPath(a[0], "os.Rename from")
+		to := in.fsPath(a[1], "os.Rename to")
 		rf, ok1 := fs.resolve(from, false)
 		rt, ok2 := fs.resolve(to, false)
 		n := fs.nodes[rf]
@@ -359,6 +402,8 @@ func registerVFS() {
 			return in.fsErr("notexist", "rename", from)
 		}
 		in.fsStep("rename " + rf + " -> " + rt)
+		fs.note("remove", rf)
+		fs.note("create", rt)
 		delete(fs.nodes, rf)
 		fs.nodes[rt] = n
 		if n.kind == 'd' {
@@ -379,7 +424,7 @@ func registerVFS() {
 	remove := func(all bool) intrinsic {
 		return func(in *Interp, fr *frame, a []Value) Value {
 			fs := in.vfs()
-			ps := in.concreteStr(a[0], "os.Remove path")
+			ps := in.fsPath(a[0], "os.Remove path")
 			rp, ok := fs.resolve(ps, false)
 			n := fs.nodes[rp]
 			if !ok || n == nil {
@@ -398,6 +443,7 @@ func registerVFS() {
 				return in.fsErr("exist", "remove", ps)
 			}
 			in.fsStep("remove " + rp)
+			fs.note("remove", rp)
 			for _, k := range kids {
 				delete(fs.nodes, k)
 			}
@@ -409,34 +455,36 @@ func registerVFS() {
 	I("os.RemoveAll", remove(true))
 	I("os.Chmod", func(in *Interp, fr *frame, a []Value) Value {
 		fs := in.vfs()
-		ps := in.concreteStr(a[0], "os.Chmod path")
+		ps := in.fsPath(a[0], "os.Chmod path")
 		rp, ok := fs.resolve(ps, true)
 		n := fs.nodes[rp]
 		if !ok || n == nil {
 			return in.fsErr("notexist", "chmod", ps)
 		}
 		in.fsStep("chmod " + rp)
+		fs.note("chmod", rp)
 		n.mode = uint32(in.concInt(a[1].(*Term), "chmod mode"))
 		return Iface{}
 	})
 	I("os.Symlink", func(in *Interp, fr *frame, a []Value) Value {
 		fs := in.vfs()
-		tgt := in.concreteStr(a[0], "os.Symlink target")
-		ps := in.concreteStr(a[1], "os.Symlink path")
+		tgt := in.fsPath(a[0], "os.Symlink target")
+		ps := in.fsPath(a[1], "os.Symlink path")
 		rp, ok := fs.resolve(ps, false)
-		if !ok && !in.parentOK(fs, rp) {
+		if !ok || !in.parentOK(fs, rp) {
 			return in.fsErr("notexist", "symlink", ps)
 		}
 		if fs.nodes[rp] != nil {
 			return in.fsErr("exist", "symlink", ps)
 		}
 		in.fsStep("symlink " + rp + " -> " + tgt)
+		fs.note("symlink", rp)
 		fs.nodes[rp] = &vnode{kind: 'l', target: tgt, mode: 0o777}
 		return Iface{}
 	})
 	I("os.Readlink", func(in *Interp, fr *frame, a []Value) Value {
 		fs := in.vfs()
-		ps := in.concreteStr(a[0], "os.Readlink path")
+		ps := in.fsPath(a[0], "os.Readlink path")
 		rp, ok := fs.resolve(ps, false)
 		n := fs.nodes[rp]
 		if !ok || n == nil || n.kind != 'l' {
@@ -446,16 +494,66 @@ func registerVFS() {
 	})
 	I("path/filepath.EvalSymlinks", func(in *Interp, fr *frame, a []Value) Value {
 		fs := in.vfs()
-		ps := in.concreteStr(a[0], "EvalSymlinks path")
+		ps := in.fsPath(a[0], "EvalSymlinks path")
 		rp, ok := fs.resolve(ps, true)
 		if !ok || fs.nodes[rp] == nil {
 			return Tuple{in.emptyStr, in.fsErr("notexist", "lstat", ps)}
 		}
 		return Tuple{in.mkStr(rp), Iface{}}
 	})
+	I("os.Link", func(in *Interp, fr *frame, a []Value) Value {
+		fs := in.vfs()
+		oldp := in.fsPath(a[0], "os.Link old")
+		newp := in.fsPath(a[1], "os.Link new")
+		ro, ok1 := fs.resolve(oldp, false) // linkat does not follow a final symbolic link
+		rn, ok2 := fs.resolve(newp, false)
+		on := fs.nodes[ro]
+		if !ok1 || on == nil {
+			return in.fsErr("notexist", "link", oldp)
+		}
+		if on.kind == 'd' {
+			return in.fsErr("perm", "link", oldp)
+		}
+		if !ok2 || !in.parentOK(fs, rn) {
+			return in.fsErr("notexist", "link", newp)
+		}
+		if fs.nodes[rn] != nil {
+			return in.fsErr("exist", "link", newp)
+		}
+		in.fsStep("link " + rn + " = " + ro)
+		fs.note("create", rn)
+		fs.note("link", ro)
+		fs.nodes[rn] = on
+		return Iface{}
+	})
 	I("os.ReadDir", func(in *Interp, fr *frame, a []Value) Value {
-		in.unsupported("os.ReadDir in model filesystem")
-		return nil
+		fs := in.vfs()
+		ps := in.fsPath(a[0], "os.ReadDir path")
+		rp, ok := fs.resolve(ps, true)
+		n := fs.nodes[rp]
+		if !ok || n == nil {
+			return Tuple{SliceV{nil: true}, in.fsErr("notexist", "open", ps)}
+		}
+		if n.kind != 'd' {
+			return Tuple{SliceV{nil: true}, in.fsErr("notdir", "readdirent", ps)}
+		}
+		fs.note("list", rp)
+		var names []string
+		pre := rp + "/"
+		if rp == "/" {
+			pre = "/"
+		}
+		for k := range fs.nodes {
+			if k != rp && strings.HasPrefix(k, pre) && !strings.Contains(k[len(pre):], "/") {
+				names = append(names, k)
+			}
+		}
+		sort.Strings(names)
+		out := make([]Value, len(names))
+		for i, k := range names {
+			out[i] = Iface{t: nativeObjType, v: &Native{kind: "direntry", v: &vfileInfo{name: path.Base(k), node: fs.nodes[k]}}}
+		}
+		return Tuple{SliceV{a: out, n: len(out), c: len(out)}, Iface{}}
 	})
 	I("os.UserHomeDir", func(in *Interp, fr *frame, a []Value) Value { return Tuple{in.mkStr("/home/user"), Iface{}} })
 	I("os.Getwd", func(in *Interp, fr *frame, a []Value) Value { return Tuple{in.mkStr("/cwd"), Iface{}} })
@@ -589,12 +687,29 @@ func registerVFS() {
 	nativeMethods["fileinfo.ModTime"] = func(in *Interp, fr *frame, a []Value) Value {
 		return in.mkTime(in.i64c(1700000000000000000))
 	}
+	nativeMethods["direntry.Name"] = nativeMethods["fileinfo.Name"]
+	nativeMethods["direntry.IsDir"] = nativeMethods["fileinfo.IsDir"]
+	nativeMethods["direntry.Type"] = func(in *Interp, fr *frame, a []Value) Value {
+		fi := a[0].(*Native).v.(*vfileInfo)
+		var m uint32
+		switch fi.node.kind {
+		case 'd':
+			m |= 1 << 31
+		case 'l':
+			m |= 1 << 27
+		}
+		return in.tc.BV(32, uint64(m))
+	}
+	nativeMethods["direntry.Info"] = func(in *Interp, fr *frame, a []Value) Value {
+		fi := a[0].(*Native).v.(*vfileInfo)
+		return Tuple{Iface{t: nativeObjType, v: &Native{kind: "fileinfo", v: fi}}, Iface{}}
+	}
 	nativeMethods["fileinfo.Sys"] = func(in *Interp, fr *frame, a []Value) Value { return Iface{} }
 
 	// harness access to the model filesystem
 	harnessIntrinsics["verif_fs_write"] = func(in *Interp, fr *frame, a []Value) Value {
 		fs := in.vfs()
-		p := cleanPath(in.concreteStr(a[0], "verif_fs_write path"))
+		p := cleanPath(in.fsPath(a[0], "verif_fs_write path"))
 		// create parents
 		par := path.Dir(p)
 		var mk []string
@@ -610,7 +725,7 @@ func registerVFS() {
 	}
 	harnessIntrinsics["verif_fs_mkdir"] = func(in *Interp, fr *frame, a []Value) Value {
 		fs := in.vfs()
-		p := cleanPath(in.concreteStr(a[0], "verif_fs_mkdir path"))
+		p := cleanPath(in.fsPath(a[0], "verif_fs_mkdir path"))
 		for p != "/" {
 			if fs.nodes[p] == nil {
 				fs.nodes[p] = &vnode{kind: 'd', mode: 0o755}
@@ -621,14 +736,14 @@ func registerVFS() {
 	}
 	harnessIntrinsics["verif_fs_symlink"] = func(in *Interp, fr *frame, a []Value) Value {
 		fs := in.vfs()
-		tgt := in.concreteStr(a[0], "target")
-		p := cleanPath(in.concreteStr(a[1], "path"))
+		tgt := in.fsPath(a[0], "target")
+		p := cleanPath(in.fsPath(a[1], "path"))
 		fs.nodes[p] = &vnode{kind: 'l', target: tgt, mode: 0o777}
 		return nil
 	}
 	harnessIntrinsics["verif_fs_read"] = func(in *Interp, fr *frame, a []Value) Value {
 		fs := in.vfs()
-		p := cleanPath(in.concreteStr(a[0], "verif_fs_read path"))
+		p := cleanPath(in.fsPath(a[0], "verif_fs_read path"))
 		n := fs.nodes[p]
 		if n == nil || n.kind != 'f' {
 			return Tuple{SliceV{nil: true}, in.tc.tFalse}
@@ -637,11 +752,75 @@ func registerVFS() {
 	}
 	harnessIntrinsics["verif_fs_exists"] = func(in *Interp, fr *frame, a []Value) Value {
 		fs := in.vfs()
-		p := cleanPath(in.concreteStr(a[0], "verif_fs_exists path"))
+		p := cleanPath(in.fsPath(a[0], "verif_fs_exists path"))
 		return in.tc.Bool(fs.nodes[p] != nil)
 	}
 	harnessIntrinsics["verif_fs_path"] = func(in *Interp, fr *frame, a []Value) Value {
-		return in.mkStr("/vfs/" + in.concreteStr(a[0], "verif_fs_path"))
+		return in.mkStr("/vfs/" + in.fsPath(a[0], "verif_fs_path"))
+	}
+	// first logged access of one of the given kinds whose real path is under none of the prefixes
+	harnessIntrinsics["verif_fs_outside"] = func(in0 *Interp, fr *frame, a []Value) Value {
+		in := in0
+		fs := in.vfs()
+		pres := strings.Split(in.concreteStr(a[0], "verif_fs_outside prefixes"), ":")
+		kinds := "," + in.concreteStr(a[1], "verif_fs_outside kinds") + ","
+		for _, ac := range fs.access {
+			if !strings.Contains(kinds, ","+ac.op+",") {
+				continue
+			}
+			inside := false
+			for _, pre := range pres {
+				pre = cleanPath(pre)
+				if ac.path == pre || strings.HasPrefix(ac.path, pre+"/") {
+					inside = true
+				}
+			}
+			if !inside {
+				return in0.mkStr(ac.op+" "+ac.path)
+			}
+		}
+		return in0.mkStr("")
+	}
+	harnessIntrinsics["verif_fs_log_reset"] = func(in *Interp, fr *frame, a []Value) Value {
+		in.vfs().access = nil
+		return nil
+	}
+	// state of everything under root except the subtree at exclude
+	harnessIntrinsics["verif_fs_digest"] = func(in *Interp, fr *frame, a []Value) Value {
+		fs := in.vfs()
+		root := cleanPath(in.concreteStr(a[0], "verif_fs_digest root"))
+		excl := cleanPath(in.concreteStr(a[1], "verif_fs_digest exclude"))
+		links := map[*vnode]int{}
+		for _, n := range fs.nodes {
+			links[n]++
+		}
+		var ks []string
+		for k, n := range fs.nodes {
+			if k == excl || strings.HasPrefix(k, excl+"/") {
+				continue
+			}
+			if k != root && !strings.HasPrefix(k, root+"/") {
+				continue
+			}
+			d := fmt.Sprintf("%s|%c|%o|%s|n%d|", strings.TrimPrefix(k, root), n.kind, n.mode&0o777, n.target, links[n])
+			if n.kind != 'f' {
+				d = fmt.Sprintf("%s|%c|%s|", strings.TrimPrefix(k, root), n.kind, n.target)
+				if n.kind == 'd' {
+					d += fmt.Sprintf("%o", n.mode&0o777)
+				}
+			}
+			for _, b := range n.data {
+				t := b.(*Term)
+				if t.IsConst() {
+					d += fmt.Sprintf("%02x", t.k)
+				} else {
+					d += fmt.Sprintf("<t%d>", t.id)
+				}
+			}
+			ks = append(ks, d)
+		}
+		sort.Strings(ks)
+		return in.mkStr(strings.Join(ks, ";"))
 	}
 	harnessIntrinsics["verif_fs_steps"] = func(in *Interp, fr *frame, a []Value) Value {
 		return in.lenTerm(in.vfs().steps)
